@@ -686,13 +686,43 @@ fn strategy(tier: Tier) -> BoxedStrategy<Case> {
     let rayon_callers = crate::gen::select(vec![3usize, 3, 5, 6, 7, 12])
         .prop_flat_map(move |n| prop::collection::vec(prop::collection::vec(rayon_task.clone(), 1..=2), n..=n))
         .prop_map(move |programs| Case { programs, repeats: core::cmp::max(3, reps / 4) });
-    prop_oneof![12 => mixed, 2 => streams, 2 => readers, 2 => rayon_callers].boxed()
+    // every thread hands megabytes to ONE blake3_hasher_update call of the C library at the same time
+    #[cfg(feature = "cshim")]
+    let c_streams = {
+        use crate::hist::Size;
+        use crate::props::c06::{self, COp};
+        let c_task = move |variant: u8| {
+            (c06::mask_strategy(), c06::init_strategy(), gen::content(), 1_000_000u32..=7_000_000, 0u32..=3000, prop::bool::weighted(0.25)).prop_map(move |(mask, init, content, len, pre, split)| {
+                let mut ops = vec![COp::Update(Size::Abs(pre))];
+                if split {
+                    ops.push(COp::Update(Size::Abs(len / 2)));
+                    ops.push(COp::Update(Size::Abs(len - len / 2)));
+                } else {
+                    ops.push(COp::Update(Size::Abs(len)));
+                }
+                ops.push(COp::Finalize(64));
+                Task::CHist(c06::Case { variant, mask, init, content, budget: 7_100_000, ops })
+            })
+        };
+        // all threads of a case use the same library build (its statics are what they could share)
+        (prop_oneof![5 => Just(0u8), 3 => Just(1u8), 1 => c06::variant_strategy()], crate::gen::select(vec![3usize, 4, 8, 8, 12, 16]))
+            .prop_flat_map(move |(variant, n)| prop::collection::vec(prop::collection::vec(c_task(variant), 2..=3), n..=n))
+            .prop_map(move |programs| Case { programs, repeats: core::cmp::max(4, reps / 3) })
+    };
+    #[cfg(feature = "cshim")]
+    {
+        prop_oneof![12 => mixed, 2 => streams, 2 => readers, 2 => rayon_callers, 3 => c_streams].boxed()
+    }
+    #[cfg(not(feature = "cshim"))]
+    {
+        prop_oneof![12 => mixed, 2 => streams, 2 => readers, 2 => rayon_callers].boxed()
+    }
 }
 
 pub fn subs() -> Vec<Box<dyn DynSub>> {
     vec![Box::new(PropSub::<Case> {
         name: "threads-fresh-process",
-        rule: "proptest: T in {2,4,8,16,32} threads, each with its own program of 1-3 tasks on its own instances (C01 one-shots, C02 histories incl. update_rayon/mmap, C03 XOF-reader histories, C06 histories on C hashers of both library builds with CPU detection left to race, bursts of 50-400 construct-update-finalize rounds in every mode on either library, extended-output readers consumed in 100-1500 small pieces through fill / io::Read / read_exact / the XofReader trait, and long streams of 60 KiB-3 MiB through update_reader/io::copy/update_mmap(_rayon)/update_rayon/write_all; one case in eight has every thread streaming at once, one in eight every thread reading extended output in small pieces at once, one in nine 3-12 threads all inside update_rayon / update_mmap_rayon on 1.2-6.5 MB each), started together by a barrier in a FRESH child process and repeated 12x (quick) / 40x (thorough); oracle: every output of every thread equals the spec model (what the program yields alone) and the process exits cleanly; non-trivial = >=2 threads whose programs both hash > 16 chunks",
+        rule: "proptest: T in {2,4,8,16,32} threads, each with its own program of 1-3 tasks on its own instances (C01 one-shots, C02 histories incl. update_rayon/mmap, C03 XOF-reader histories, C06 histories on C hashers of both library builds with CPU detection left to race, bursts of 50-400 construct-update-finalize rounds in every mode on either library, extended-output readers consumed in 100-1500 small pieces through fill / io::Read / read_exact / the XofReader trait, and long streams of 60 KiB-3 MiB through update_reader/io::copy/update_mmap(_rayon)/update_rayon/write_all; one case in eight has every thread streaming at once, one in eight every thread reading extended output in small pieces at once, one in ten 3-12 threads all inside update_rayon / update_mmap_rayon on 1.2-6.5 MB each, one in ten 2-12 threads each handing 1-7 MB to one blake3_hasher_update call of a C library build), started together by a barrier in a FRESH child process and repeated 12x (quick) / 40x (thorough); oracle: every output of every thread equals the spec model (what the program yields alone) and the process exits cleanly; non-trivial = >=2 threads whose programs both hash > 16 chunks",
         cases: (320, 4_000),
         strategy,
         classify,
